@@ -373,4 +373,967 @@ theorem fn_spec (w : Nat) (f : Fragment) (hwb : f.wb = true) (vs : List Nat)
     rw [List.getD_eq_getElem?_getD, List.getElem?_map, hp]
     simp
 
+
+/-! ## rank (the composer's counters) -/
+
+theorem rank_inj {α : Type} [DecidableEq α] (pred : α → Bool) : ∀ (L : List α) (x y : α),
+    x ∈ L → y ∈ L → pred x = true → pred y = true → rank pred L x = rank pred L y → x = y := by
+  intro L
+  induction L with
+  | nil => intro x y hx; cases hx
+  | cons z zs ih =>
+    intro x y hx hy px py h
+    by_cases hzx : z = x
+    · subst hzx
+      by_cases hzy : z = y
+      · exact hzy
+      · simp only [rank, if_true, hzy, if_false, px] at h
+        omega
+    · by_cases hzy : z = y
+      · subst hzy
+        simp only [rank, hzx, if_false, if_true, py] at h
+        omega
+      · simp only [rank, hzx, hzy, if_false] at h
+        have hx' : x ∈ zs := by
+          rcases List.mem_cons.mp hx with e | e
+          · exact absurd e.symm hzx
+          · exact e
+        have hy' : y ∈ zs := by
+          rcases List.mem_cons.mp hy with e | e
+          · exact absurd e.symm hzy
+          · exact e
+        exact ih x y hx' hy' px py (by omega)
+
+theorem mem_outPairs (g : Graph) (l : List Nat) (i p : Nat) :
+    (i, p) ∈ outPairs g l ↔ i ∈ l ∧ p < g.nOut i := by
+  simp only [outPairs, List.mem_flatMap, List.mem_map, List.mem_range, Prod.mk.injEq]
+  constructor
+  · rintro ⟨a, ha, b, hb, rfl, rfl⟩; exact ⟨ha, hb⟩
+  · rintro ⟨h1, h2⟩; exact ⟨i, h1, p, h2, rfl, rfl⟩
+
+theorem tempIdx_inj (g : Graph) (l : List Nat) (i p i' p' k : Nat)
+    (hi : i ∈ l) (hp : p < g.nOut i) (hi' : i' ∈ l) (hp' : p' < g.nOut i')
+    (h : tempIdx g l i p = some k) (h' : tempIdx g l i' p' = some k) : i = i' ∧ p = p' := by
+  unfold tempIdx at h h'
+  split at h
+  · rename_i c
+    split at h'
+    · rename_i c'
+      simp only [Option.some.injEq] at h h'
+      have := rank_inj (hasIntCons g l) (outPairs g l) (i, p) (i', p')
+        ((mem_outPairs g l i p).mpr ⟨hi, hp⟩) ((mem_outPairs g l i' p').mpr ⟨hi', hp'⟩) c c'
+        (by unfold tmpIdx at h h'; rw [h, h'])
+      simpa using this
+    · cases h'
+  · cases h
+
+/-! ## the four passes of a block -/
+
+/-- value a load instruction puts in its destination -/
+def loadVal (inp : Nat → Nat) (ρ : RegFile) (dflt : Nat) : Option SInstr → Nat
+  | some (.movIn _ k) => inp k
+  | some (.movReg _ s) => ρ s
+  | _ => dflt
+
+theorem run_loads (w : Nat) (inp : Nat → Nat) (f : Nat × Nat → Option SInstr) :
+    ∀ (items : List (Nat × Nat)) (st : SecSt),
+    (items.map (·.2)).Nodup →
+    (∀ jr ∈ items, ∀ ins, f jr = some ins →
+        (∃ k, ins = .movIn (.r jr.2) k) ∨ (∃ k, ins = .movReg (.r jr.2) (.t k))) →
+    (runSec w inp (items.filterMap f) st).outs = st.outs ∧
+    (∀ k, (runSec w inp (items.filterMap f) st).regs (.t k) = st.regs (.t k)) ∧
+    (∀ n, n ∉ items.map (·.2) → (runSec w inp (items.filterMap f) st).regs (.r n) = st.regs (.r n)) ∧
+    (∀ jr ∈ items, (runSec w inp (items.filterMap f) st).regs (.r jr.2) =
+        loadVal inp st.regs (st.regs (.r jr.2)) (f jr)) := by
+  intro items
+  induction items with
+  | nil => intro st _ _; simp [runSec]
+  | cons a rest ih =>
+    intro st hnd hform
+    simp only [List.map_cons, List.nodup_cons] at hnd
+    obtain ⟨ha, hnd'⟩ := hnd
+    have hform' : ∀ jr ∈ rest, ∀ ins, f jr = some ins →
+        (∃ k, ins = .movIn (.r jr.2) k) ∨ (∃ k, ins = .movReg (.r jr.2) (.t k)) :=
+      fun jr h => hform jr (List.mem_cons_of_mem _ h)
+    cases hfa : f a with
+    | none =>
+      have h := ih st hnd' hform'
+      simp only [List.filterMap_cons, hfa]
+      refine ⟨h.1, h.2.1, ?_, ?_⟩
+      · intro n hn
+        apply h.2.2.1
+        intro hm; exact hn (List.mem_cons_of_mem _ hm)
+      · intro jr hjr
+        rcases List.mem_cons.mp hjr with e | e
+        · subst e
+          rw [hfa]
+          simp only [loadVal]
+          exact h.2.2.1 _ ha
+        · exact h.2.2.2 jr e
+    | some ins =>
+      have hstep : ∃ v, SInstr.step w inp st ins = { st with regs := upd st.regs (.r a.2) v } ∧
+          v = loadVal inp st.regs (st.regs (.r a.2)) (some ins) := by
+        rcases hform a (List.mem_cons_self ..) ins hfa with ⟨k, rfl⟩ | ⟨k, rfl⟩
+        · exact ⟨inp k, rfl, rfl⟩
+        · exact ⟨st.regs (.t k), rfl, rfl⟩
+      obtain ⟨v, hst, hv⟩ := hstep
+      have h := ih (SInstr.step w inp st ins) hnd' hform'
+      simp only [List.filterMap_cons, hfa, runSec, List.foldl_cons] at h ⊢
+      rw [hst] at h ⊢
+      refine ⟨h.1, ?_, ?_, ?_⟩
+      · intro k; rw [h.2.1 k]; simp [upd]
+      · intro n hn
+        rw [h.2.2.1 n (fun hm => hn (List.mem_cons_of_mem _ hm))]
+        have : n ≠ a.2 := fun e => hn (e ▸ List.mem_cons_self ..)
+        simp [upd, this]
+      · intro jr hjr
+        rcases List.mem_cons.mp hjr with e | e
+        · subst e
+          rw [h.2.2.1 _ ha, hfa, ← hv]
+          simp [upd]
+        · rw [h.2.2.2 jr e]
+          have hne : jr.2 ≠ a.2 := by
+            intro e'; apply ha; rw [← e']; exact List.mem_map_of_mem e
+          -- the value loaded for jr does not depend on the write to a.2
+          cases hfj : f jr with
+          | none => simp [loadVal, upd, hne]
+          | some ins' =>
+            rcases hform' jr e ins' hfj with ⟨k, rfl⟩ | ⟨k, rfl⟩
+            · simp [loadVal]
+            · simp [loadVal, upd]
+
+theorem run_storesOut (g : Graph) (l : List Nat) (i : Nat) (w : Nat) (inp : Nat → Nat) :
+    ∀ (items : List (Nat × Nat)) (st : SecSt),
+    (runSec w inp (storesOutL g l i items) st).regs = st.regs ∧
+    (runSec w inp (storesOutL g l i items) st).outs =
+      st.outs ++ items.filterMap (fun pr => (outPort g l i pr.1).map fun k => (k, st.regs (.r pr.2))) := by
+  intro items
+  induction items with
+  | nil => intro st; simp [storesOutL, runSec]
+  | cons a rest ih =>
+    intro st
+    unfold storesOutL at ih ⊢
+    cases ho : outPort g l i a.1 with
+    | none =>
+      simp only [List.filterMap_cons, ho, Option.map_none]
+      exact ih st
+    | some k =>
+      have h := ih (SInstr.step w inp st (.movOut k (.r a.2)))
+      simp only [List.filterMap_cons, ho, Option.map_some, runSec, List.foldl_cons] at h ⊢
+      refine ⟨h.1, ?_⟩
+      rw [h.2]
+      simp [SInstr.step]
+
+theorem run_storesTemp (g : Graph) (l : List Nat) (i : Nat) (w : Nat) (inp : Nat → Nat) :
+    ∀ (items : List (Nat × Nat)) (st : SecSt),
+    (items.map (·.1)).Nodup →
+    (∀ pr ∈ items, ∀ pr' ∈ items, ∀ k, tempIdx g l i pr.1 = some k → tempIdx g l i pr'.1 = some k →
+        pr.1 = pr'.1) →
+    (runSec w inp (storesTempL g l i items) st).outs = st.outs ∧
+    (∀ n, (runSec w inp (storesTempL g l i items) st).regs (.r n) = st.regs (.r n)) ∧
+    (∀ k, (∀ pr ∈ items, tempIdx g l i pr.1 ≠ some k) →
+        (runSec w inp (storesTempL g l i items) st).regs (.t k) = st.regs (.t k)) ∧
+    (∀ pr ∈ items, ∀ k, tempIdx g l i pr.1 = some k →
+        (runSec w inp (storesTempL g l i items) st).regs (.t k) = st.regs (.r pr.2)) := by
+  intro items
+  induction items with
+  | nil => intro st _ _; simp [storesTempL, runSec]
+  | cons a rest ih =>
+    intro st hnd hinj
+    simp only [List.map_cons, List.nodup_cons] at hnd
+    obtain ⟨ha, hnd'⟩ := hnd
+    have hinj' : ∀ pr ∈ rest, ∀ pr' ∈ rest, ∀ k, tempIdx g l i pr.1 = some k →
+        tempIdx g l i pr'.1 = some k → pr.1 = pr'.1 :=
+      fun pr h pr' h' => hinj pr (List.mem_cons_of_mem _ h) pr' (List.mem_cons_of_mem _ h')
+    unfold storesTempL at ih ⊢
+    cases ht : tempIdx g l i a.1 with
+    | none =>
+      have h := ih st hnd' hinj'
+      simp only [List.filterMap_cons, ht, Option.map_none]
+      refine ⟨h.1, h.2.1, ?_, ?_⟩
+      · intro k hk
+        exact h.2.2.1 k (fun pr hpr => hk pr (List.mem_cons_of_mem _ hpr))
+      · intro pr hpr k hk
+        rcases List.mem_cons.mp hpr with e | e
+        · subst e; rw [ht] at hk; cases hk
+        · exact h.2.2.2 pr e k hk
+    | some k0 =>
+      have h := ih (SInstr.step w inp st (.movReg (.t k0) (.r a.2))) hnd' hinj'
+      simp only [List.filterMap_cons, ht, Option.map_some, runSec, List.foldl_cons] at h ⊢
+      have hnot : ∀ pr ∈ rest, tempIdx g l i pr.1 ≠ some k0 := by
+        intro pr hpr hk
+        have := hinj a (List.mem_cons_self ..) pr (List.mem_cons_of_mem _ hpr) k0 ht hk
+        apply ha; rw [this]; exact List.mem_map_of_mem hpr
+      refine ⟨h.1, ?_, ?_, ?_⟩
+      · intro n; rw [h.2.1 n]; simp [SInstr.step, upd]
+      · intro k hk
+        rw [h.2.2.1 k (fun pr hpr => hk pr (List.mem_cons_of_mem _ hpr))]
+        have : k ≠ k0 := by
+          intro e; exact hk a (List.mem_cons_self ..) (e ▸ ht)
+        simp [SInstr.step, upd, this]
+      · intro pr hpr k hk
+        rcases List.mem_cons.mp hpr with e | e
+        · subst e
+          rw [ht] at hk
+          simp only [Option.some.injEq] at hk
+          subst hk
+          rw [h.2.2.1 k0 hnot]
+          simp [SInstr.step, upd]
+        · rw [h.2.2.2 pr e k hk]
+          simp [SInstr.step, upd]
+
+
+/-! ## what `Graph.wf` gives -/
+
+theorem wf_inst (g : Graph) (h : g.wf = true) (i : Nat) (hi : i < g.insts.length) :
+    (g.frag i).wb = true ∧
+    ∀ j, j < g.nIn i → g.inCount i j = 1 ∧ ∃ s, g.inSrc i j = some s ∧ g.srcOk i s = true := by
+  unfold Graph.wf at h
+  simp only [Bool.and_eq_true, List.all_eq_true, List.mem_range] at h
+  have hi' := h.1 i hi
+  refine ⟨hi'.1, ?_⟩
+  intro j hj
+  have := hi'.2 j hj
+  refine ⟨by simpa using this.1, ?_⟩
+  cases hs : g.inSrc i j with
+  | none => rw [hs] at this; simp at this
+  | some s => rw [hs] at this; exact ⟨s, rfl, this.2⟩
+
+theorem wf_link (g : Graph) (h : g.wf = true) (L : Link) (hL : L ∈ g.links) :
+    (∀ i j, L.dst = .inp i j → i < g.insts.length ∧ j < g.nIn i) ∧
+    (∀ i p, L.src = .out i p → i < g.insts.length ∧ p < g.nOut i) := by
+  unfold Graph.wf at h
+  simp only [Bool.and_eq_true, List.all_eq_true] at h
+  have := h.2 L hL
+  constructor
+  · intro i j e; rw [e] at this; simpa using this.1
+  · intro i p e; rw [e] at this; simpa using this.2
+
+theorem inSrc_mem (g : Graph) (i j : Nat) (s : Src) (h : g.inSrc i j = some s) :
+    ∃ L ∈ g.links, L.dst = .inp i j ∧ L.src = s := by
+  unfold Graph.inSrc at h
+  cases hf : g.links.find? (fun L => L.dst == Dst.inp i j) with
+  | none => rw [hf] at h; cases h
+  | some L =>
+    rw [hf] at h
+    simp only [Option.map_some, Option.some.injEq] at h
+    refine ⟨L, List.mem_of_find?_eq_some hf, ?_, h⟩
+    have := List.find?_some hf
+    simpa using this
+
+theorem hasIntCons_of_inSrc (g : Graph) (l : List Nat) (i j i' p' : Nat)
+    (h : g.inSrc i j = some (.out i' p')) (hil : i ∈ l) : hasIntCons g l (i', p') = true := by
+  obtain ⟨L, hL, hd, hs⟩ := inSrc_mem g i j _ h
+  unfold hasIntCons
+  apply List.any_eq_true.mpr
+  refine ⟨L, hL, ?_⟩
+  simp [hs, hd, hil]
+
+theorem hasExtCons_of_inSrc (g : Graph) (l : List Nat) (i j i' p' : Nat)
+    (h : g.inSrc i j = some (.out i' p')) (hil : i ∉ l) : hasExtCons g l (i', p') = true := by
+  obtain ⟨L, hL, hd, hs⟩ := inSrc_mem g i j _ h
+  unfold hasExtCons
+  apply List.any_eq_true.mpr
+  refine ⟨L, hL, ?_⟩
+  simp [hs, hd, hil]
+
+/-! ## one block -/
+
+theorem filterMap_congr' {α β : Type} (f g : α → Option β) : ∀ (l : List α),
+    (∀ x ∈ l, f x = g x) → l.filterMap f = l.filterMap g := by
+  intro l; induction l with
+  | nil => intro _; rfl
+  | cons a as ih =>
+    intro h
+    simp only [List.filterMap_cons, h a (List.mem_cons_self ..),
+      ih (fun x hx => h x (List.mem_cons_of_mem _ hx))]
+
+theorem flatMap_congr' {α β : Type} (f g : α → List β) : ∀ (l : List α),
+    (∀ x ∈ l, f x = g x) → l.flatMap f = l.flatMap g := by
+  intro l; induction l with
+  | nil => intro _; rfl
+  | cons a as ih =>
+    intro h
+    simp only [List.flatMap_cons, h a (List.mem_cons_self ..),
+      ih (fun x hx => h x (List.mem_cons_of_mem _ hx))]
+
+theorem range_map_getD (f : Nat → Nat) (n j : Nat) (hj : j < n) :
+    ((List.range n).map f).getD j 0 = f j := by
+  rw [List.getD_eq_getElem?_getD, List.getElem?_map, List.getElem?_range hj]
+  simp
+
+theorem run_block (g : Graph) (l : List Nat) (inp : Nat → Nat) (hwf : g.wf = true)
+    (F : Nat → Nat → Nat) (pre : List Nat) (i : Nat) (st : SecSt)
+    (hi : i < g.insts.length) (hil : i ∈ l) (hipre : i ∉ pre) (hprel : ∀ x ∈ pre, x ∈ l)
+    (_hprelt : ∀ x ∈ pre, x < g.insts.length)
+    (htopo : ∀ j i' p', g.inSrc i j = some (.out i' p') → l.contains i' = true → i' ∈ pre)
+    (hinv : ∀ i' ∈ pre, ∀ p', p' < g.nOut i' → ∀ k, tempIdx g l i' p' = some k →
+        st.regs (.t k) = F i' p') :
+    (runSec g.w inp (block g l i) st).outs = st.outs ++
+      (enum (g.frag i).resout).filterMap (fun pr => (outPort g l i pr.1).map fun k =>
+        (k, ((g.frag i).fn g.w ((List.range (g.nIn i)).map (localIn g l inp F i))).getD pr.1 0)) ∧
+    (∀ i' ∈ pre, ∀ p', p' < g.nOut i' → ∀ k, tempIdx g l i' p' = some k →
+        (runSec g.w inp (block g l i) st).regs (.t k) = F i' p') ∧
+    (∀ p, p < g.nOut i → ∀ k, tempIdx g l i p = some k →
+        (runSec g.w inp (block g l i) st).regs (.t k) =
+          ((g.frag i).fn g.w ((List.range (g.nIn i)).map (localIn g l inp F i))).getD p 0) := by
+  obtain ⟨hwb, hins⟩ := wf_inst g hwf i hi
+  have hresin_nd : (g.frag i).resin.Nodup := by
+    unfold Fragment.wb at hwb
+    simp only [Bool.and_eq_true, decide_eq_true_eq] at hwb
+    exact hwb.1
+  -- pass 1: mov resin, iK
+  have h1 := run_loads g.w inp
+    (fun jr => (inPort g l i jr.1).map fun k => SInstr.movIn (.r jr.2) k)
+    (enum (g.frag i).resin) st
+    (by rw [enum, enumFrom_map_snd]; exact hresin_nd)
+    (by
+      intro jr _ ins h
+      cases hp : inPort g l i jr.1 with
+      | none => simp [hp] at h
+      | some k => simp [hp] at h; exact Or.inl ⟨k, h.symm⟩)
+  -- pass 2: mov resin, tK
+  have h2 := run_loads g.w inp
+    (fun jr => match inKind g l i jr.1 with
+      | .temp i' p' => (tempIdx g l i' p').map fun k => SInstr.movReg (.r jr.2) (.t k)
+      | _ => none)
+    (enum (g.frag i).resin) (runSec g.w inp (loadsIn g l i) st)
+    (by rw [enum, enumFrom_map_snd]; exact hresin_nd)
+    (by
+      intro jr _ ins h
+      cases hk : inKind g l i jr.1 with
+      | none => simp [hk] at h
+      | port => simp [hk] at h
+      | temp i' p' =>
+        simp only [hk] at h
+        cases ht : tempIdx g l i' p' with
+        | none => simp [ht] at h
+        | some k => simp [ht] at h; exact Or.inr ⟨k, h.symm⟩)
+  change (runSec g.w inp (loadsIn g l i) st).outs = _ ∧
+    (∀ k, (runSec g.w inp (loadsIn g l i) st).regs _ = _) ∧
+    (∀ n, _ → (runSec g.w inp (loadsIn g l i) st).regs _ = _) ∧
+    ∀ jr ∈ _, (runSec g.w inp (loadsIn g l i) st).regs _ = _ at h1
+  change (runSec g.w inp (loadsTemp g l i) _).outs = _ ∧
+    (∀ k, (runSec g.w inp (loadsTemp g l i) _).regs _ = _) ∧
+    (∀ n, _ → (runSec g.w inp (loadsTemp g l i) _).regs _ = _) ∧
+    ∀ jr ∈ _, (runSec g.w inp (loadsTemp g l i) _).regs _ = _ at h2
+  generalize hst1 : runSec g.w inp (loadsIn g l i) st = st1 at h1 h2
+  generalize hst2 : runSec g.w inp (loadsTemp g l i) st1 = st2 at h2
+  -- the resin registers now hold the dataflow inputs
+  have hload : ∀ j r, (g.frag i).resin[j]? = some r → st2.regs (.r r) = localIn g l inp F i j := by
+    intro j r hjr
+    have hmem : (j, r) ∈ enum (g.frag i).resin := (mem_enum _ j r).mpr hjr
+    have hjlt : j < g.nIn i := by
+      unfold Graph.nIn
+      exact (List.getElem?_eq_some_iff.mp hjr).1
+    obtain ⟨_, s, hs, hsok⟩ := hins j hjlt
+    have e2 := h2.2.2.2 (j, r) hmem
+    have e1 := h1.2.2.2 (j, r) hmem
+    simp only at e1 e2
+    unfold localIn
+    cases s with
+    | ext k0 =>
+      have hk : inKind g l i j = .port := by simp [inKind, hs]
+      have hp : inPort g l i j = some (inIdx g l i j) := by simp [inPort, isPortIn, hk]
+      rw [hk] at e2 ⊢
+      simp only [loadVal] at e2
+      rw [e2, e1, hp]
+      simp [loadVal]
+    | out i' p' =>
+      by_cases hc : l.contains i' = true
+      · have hc' : i' ∈ l := by simpa using hc
+        have hk : inKind g l i j = .temp i' p' := by simp [inKind, hs, hc']
+        have hic := hasIntCons_of_inSrc g l i j i' p' hs hil
+        have ht : tempIdx g l i' p' = some (tmpIdx g l i' p') := by simp [tempIdx, hic]
+        rw [hk] at e2 ⊢
+        simp only [ht, Option.map_some, loadVal] at e2
+        rw [e2, h1.2.1]
+        have hi'pre := htopo j i' p' hs hc
+        simp only [Graph.srcOk, Bool.and_eq_true, decide_eq_true_eq] at hsok
+        exact hinv i' hi'pre p' hsok.2 _ ht
+      · have hc' : i' ∉ l := by simpa using hc
+        have hk : inKind g l i j = .port := by simp [inKind, hs, hc']
+        have hp : inPort g l i j = some (inIdx g l i j) := by simp [inPort, isPortIn, hk]
+        rw [hk] at e2 ⊢
+        simp only [loadVal] at e2
+        rw [e2, e1, hp]
+        simp [loadVal]
+  -- body
+  have h3 := runSec_body g.w inp (g.frag i).body st2
+  generalize hst3 : runSec g.w inp ((g.frag i).body.map .op) st2 = st3 at h3
+  have hout : ∀ p r, (g.frag i).resout[p]? = some r → st3.regs (.r r) =
+      ((g.frag i).fn g.w ((List.range (g.nIn i)).map (localIn g l inp F i))).getD p 0 := by
+    intro p r hpr
+    rw [h3.2.2 r]
+    apply fn_spec g.w (g.frag i) hwb _ (by simp [Graph.nIn]) _ _ p r hpr
+    intro j r' hjr'
+    have hjlt : j < g.nIn i := by
+      unfold Graph.nIn
+      exact (List.getElem?_eq_some_iff.mp hjr').1
+    rw [range_map_getD _ _ _ hjlt]
+    exact hload j r' hjr'
+  -- pass 3: mov oK, resout
+  have h4 := run_storesOut g l i g.w inp (enum (g.frag i).resout) st3
+  change (runSec g.w inp (storesOut g l i) st3).regs = _ ∧ (runSec g.w inp (storesOut g l i) st3).outs = _ at h4
+  generalize hst4 : runSec g.w inp (storesOut g l i) st3 = st4 at h4
+  -- pass 4: mov tK, resout
+  have hmemlt : ∀ pr ∈ enum (g.frag i).resout, pr.1 < g.nOut i ∧ (g.frag i).resout[pr.1]? = some pr.2 := by
+    intro pr hpr
+    have := (mem_enum _ pr.1 pr.2).mp hpr
+    exact ⟨(List.getElem?_eq_some_iff.mp this).1, this⟩
+  have h5 := run_storesTemp g l i g.w inp (enum (g.frag i).resout) st4
+    (by unfold enum; exact (enumFrom_map_fst_nodup _ 0).1)
+    (by
+      intro pr hpr pr' hpr' k hk hk'
+      exact (tempIdx_inj g l i pr.1 i pr'.1 k hil (hmemlt pr hpr).1 hil (hmemlt pr' hpr').1 hk hk').2)
+  change (runSec g.w inp (storesTemp g l i) st4).outs = _ ∧
+    (∀ n, (runSec g.w inp (storesTemp g l i) st4).regs _ = _) ∧
+    (∀ k, _ → (runSec g.w inp (storesTemp g l i) st4).regs _ = _) ∧
+    (∀ pr ∈ _, ∀ k, _ → (runSec g.w inp (storesTemp g l i) st4).regs _ = _) at h5
+  generalize hst5 : runSec g.w inp (storesTemp g l i) st4 = st5 at h5
+  have hrun : runSec g.w inp (block g l i) st = st5 := by
+    unfold block
+    rw [runSec_append, runSec_append, runSec_append, runSec_append, hst1, hst2, hst3, hst4, hst5]
+  rw [hrun]
+  refine ⟨?_, ?_, ?_⟩
+  · rw [h5.1, h4.2, h3.1, h2.1, h1.1]
+    congr 1
+    apply filterMap_congr'
+    intro pr hpr
+    cases ho : outPort g l i pr.1 with
+    | none => rfl
+    | some k =>
+      simp only [Option.map_some]
+      rw [hout pr.1 pr.2 (hmemlt pr hpr).2]
+  · intro i' hi' p' hp' k hk
+    have hnot : ∀ pr ∈ enum (g.frag i).resout, tempIdx g l i pr.1 ≠ some k := by
+      intro pr hpr hk2
+      have := (tempIdx_inj g l i pr.1 i' p' k hil (hmemlt pr hpr).1 (hprel i' hi') hp' hk2 hk).1
+      exact hipre (this ▸ hi')
+    rw [h5.2.2.1 k hnot, h4.1, h3.2.1, h2.2.1, h1.2.1]
+    exact hinv i' hi' p' hp' k hk
+  · intro p hp k hk
+    have hr : ∃ r, (g.frag i).resout[p]? = some r := by
+      have : p < (g.frag i).resout.length := hp
+      exact ⟨_, List.getElem?_eq_getElem this⟩
+    obtain ⟨r, hr⟩ := hr
+    have hmem : (p, r) ∈ enum (g.frag i).resout := (mem_enum _ p r).mpr hr
+    rw [h5.2.2.2 (p, r) hmem k hk, h4.1]
+    exact hout p r hr
+
+
+/-- the outputs of the list's instances, as (port, value) pairs in emission order -/
+def outsOf (g : Graph) (l : List Nat) (F : Nat → Nat → Nat) (is : List Nat) : List (Nat × Nat) :=
+  is.flatMap fun i => (enum (g.frag i).resout).filterMap fun pr =>
+    (outPort g l i pr.1).map fun k => (k, F i pr.1)
+
+theorem localIn_congr (g : Graph) (l : List Nat) (inp : Nat → Nat) (F F' : Nat → Nat → Nat)
+    (i j : Nat) (h : ∀ i' p', inKind g l i j = .temp i' p' → F' i' p' = F i' p') :
+    localIn g l inp F' i j = localIn g l inp F i j := by
+  unfold localIn
+  cases hk : inKind g l i j with
+  | none => rfl
+  | port => rfl
+  | temp i' p' => exact h i' p' hk
+
+theorem inKind_temp (g : Graph) (l : List Nat) (i j i' p' : Nat)
+    (h : inKind g l i j = .temp i' p') : g.inSrc i j = some (.out i' p') ∧ l.contains i' = true := by
+  unfold inKind at h
+  cases hs : g.inSrc i j with
+  | none => simp [hs] at h
+  | some s =>
+    cases s with
+    | ext k => simp [hs] at h
+    | out a b =>
+      simp only [hs] at h
+      split at h
+      · rename_i hc
+        simp only [InKind.temp.injEq] at h
+        obtain ⟨rfl, rfl⟩ := h
+        exact ⟨rfl, hc⟩
+      · cases h
+
+theorem run_blocks (g : Graph) (l : List Nat) (inp : Nat → Nat) (hwf : g.wf = true)
+    (hnd : l.Nodup) (hlt : ∀ i ∈ l, i < g.insts.length) :
+    ∀ (suf pre : List Nat), pre ++ suf = l → listTopoAux g l pre suf = true →
+    ∀ (st : SecSt) (F : Nat → Nat → Nat),
+    (∀ x ∈ pre, ∀ j i' p', inKind g l x j = .temp i' p' → i' ∈ pre) →
+    (∀ i' ∈ pre, ∀ p', p' < g.nOut i' → ∀ k, tempIdx g l i' p' = some k → st.regs (.t k) = F i' p') →
+    (∀ i ∈ pre, ∀ p, p < g.nOut i →
+        F i p = ((g.frag i).fn g.w ((List.range (g.nIn i)).map (localIn g l inp F i))).getD p 0) →
+    ∃ F' : Nat → Nat → Nat,
+      (∀ i ∈ pre, ∀ p, F' i p = F i p) ∧
+      (∀ i ∈ l, ∀ p, p < g.nOut i →
+        F' i p = ((g.frag i).fn g.w ((List.range (g.nIn i)).map (localIn g l inp F' i))).getD p 0) ∧
+      (runSec g.w inp (suf.flatMap (block g l)) st).outs = st.outs ++ outsOf g l F' suf := by
+  intro suf
+  induction suf with
+  | nil =>
+    intro pre hpl _ st F _ _ hsol
+    refine ⟨F, fun _ _ _ => rfl, ?_, ?_⟩
+    · simp only [List.append_nil] at hpl
+      subst hpl
+      exact hsol
+    · simp [runSec, outsOf]
+  | cons i suf' ih =>
+    intro pre hpl htopo st F hpt hinv hsol
+    have hil : i ∈ l := by rw [← hpl]; simp
+    have hprel : ∀ x ∈ pre, x ∈ l := by intro x hx; rw [← hpl]; simp [hx]
+    have hipre : i ∉ pre := by
+      rw [← hpl] at hnd
+      have := (List.nodup_append.mp hnd).2.2
+      intro h
+      exact this i h i (List.mem_cons_self ..) rfl
+    simp only [listTopoAux, Bool.and_eq_true, List.all_eq_true, List.mem_range] at htopo
+    obtain ⟨hhead, htail⟩ := htopo
+    have htopo' : ∀ j i' p', g.inSrc i j = some (.out i' p') → l.contains i' = true → i' ∈ pre := by
+      intro j i' p' hs hc
+      have hjlt : j < g.nIn i := by
+        obtain ⟨L, hL, hd, _⟩ := inSrc_mem g i j _ hs
+        exact ((wf_link g hwf L hL).1 i j hd).2
+      have := hhead j hjlt
+      rw [hs] at this
+      simp only [Bool.or_eq_true, Bool.not_eq_true'] at this
+      rcases this with h | h
+      · rw [h] at hc; cases hc
+      · simpa using h
+    have hb := run_block g l inp hwf F pre i st (hlt i hil) hil hipre hprel
+      (fun x hx => hlt x (hprel x hx)) htopo' hinv
+    -- the extended solution
+    let outv := (g.frag i).fn g.w ((List.range (g.nIn i)).map (localIn g l inp F i))
+    let F1 : Nat → Nat → Nat := fun i' p' => if i' = i then outv.getD p' 0 else F i' p'
+    have hF1pre : ∀ x ∈ pre, ∀ p, F1 x p = F x p := by
+      intro x hx p
+      have : x ≠ i := fun e => hipre (e ▸ hx)
+      simp [F1, this]
+    have hpt' : ∀ x ∈ pre ++ [i], ∀ j i' p', inKind g l x j = .temp i' p' → i' ∈ pre ++ [i] := by
+      intro x hx j i' p' hk
+      rcases List.mem_append.mp hx with h | h
+      · exact List.mem_append_left _ (hpt x h j i' p' hk)
+      · simp only [List.mem_singleton] at h
+        subst h
+        obtain ⟨hs, hc⟩ := inKind_temp g l x j i' p' hk
+        exact List.mem_append_left _ (htopo' j i' p' hs hc)
+    have hlocal : ∀ x ∈ pre ++ [i], ∀ j, localIn g l inp F1 x j = localIn g l inp F x j := by
+      intro x hx j
+      apply localIn_congr
+      intro i' p' hk
+      have hi'pre : i' ∈ pre := by
+        rcases List.mem_append.mp hx with h | h
+        · exact hpt x h j i' p' hk
+        · simp only [List.mem_singleton] at h
+          subst h
+          obtain ⟨hs, hc⟩ := inKind_temp g l x j i' p' hk
+          exact htopo' j i' p' hs hc
+      exact hF1pre i' hi'pre p'
+    have hinv' : ∀ i' ∈ pre ++ [i], ∀ p', p' < g.nOut i' → ∀ k, tempIdx g l i' p' = some k →
+        (runSec g.w inp (block g l i) st).regs (.t k) = F1 i' p' := by
+      intro i' hi' p' hp' k hk
+      rcases List.mem_append.mp hi' with h | h
+      · rw [hF1pre i' h p']; exact hb.2.1 i' h p' hp' k hk
+      · simp only [List.mem_singleton] at h
+        subst h
+        rw [hb.2.2 p' hp' k hk]
+        simp [F1, outv]
+    have hsol' : ∀ x ∈ pre ++ [i], ∀ p, p < g.nOut x →
+        F1 x p = ((g.frag x).fn g.w ((List.range (g.nIn x)).map (localIn g l inp F1 x))).getD p 0 := by
+      intro x hx p hp
+      have hmap : (List.range (g.nIn x)).map (localIn g l inp F1 x) =
+          (List.range (g.nIn x)).map (localIn g l inp F x) := by
+        apply List.map_congr_left
+        intro j _
+        exact hlocal x hx j
+      rw [hmap]
+      rcases List.mem_append.mp hx with h | h
+      · rw [hF1pre x h p]; exact hsol x h p hp
+      · simp only [List.mem_singleton] at h
+        subst h
+        simp [F1, outv]
+    obtain ⟨F', hag, hsolF', houts⟩ := ih (pre ++ [i]) (by rw [← hpl]; simp) htail
+      (runSec g.w inp (block g l i) st) F1 hpt' hinv' hsol'
+    refine ⟨F', ?_, hsolF', ?_⟩
+    · intro x hx p
+      rw [hag x (List.mem_append_left _ hx) p, hF1pre x hx p]
+    · simp only [List.flatMap_cons, runSec_append]
+      rw [houts, hb.1]
+      simp only [outsOf, List.flatMap_cons, List.append_assoc]
+      congr 2
+      apply filterMap_congr'
+      intro pr _
+      cases ho : outPort g l i pr.1 with
+      | none => rfl
+      | some k =>
+        simp only [Option.map_some]
+        rw [hag i (by simp) pr.1]
+        simp [F1, outv]
+
+/-- **collapse_seq** (on the section with symbolic temporaries) -/
+theorem collapse_seq_sym (g : Graph) (l : List Nat) (inp : Nat → Nat) (hwf : g.wf = true)
+    (hnd : l.Nodup) (hlt : ∀ i ∈ l, i < g.insts.length) (htopo : listTopo g l = true)
+    (ρ : RegFile) :
+    ∃ F, LocalSol g l inp F ∧
+      (runSec g.w inp (secSym g l) ⟨ρ, []⟩).outs = expectedOuts g l F := by
+  obtain ⟨F, _, hsol, houts⟩ := run_blocks g l inp hwf hnd hlt l [] rfl htopo ⟨ρ, []⟩ (fun _ _ => 0)
+    (by intro x hx; cases hx) (by intro x hx; cases hx) (by intro x hx; cases hx)
+  refine ⟨F, hsol, ?_⟩
+  unfold secSym
+  rw [runSec_append]
+  simp only [runSec, List.foldl_cons, List.foldl_nil, SInstr.step] at houts ⊢
+  rw [houts]
+  simp [outsOf, expectedOuts]
+
+
+/-! ## dataflow evaluation: `evalPort` is the unique solution -/
+
+theorem val_ext (g : Graph) (inputs : List Nat) (f k : Nat) :
+    val g inputs f (.ext k) = inputs.getD k 0 := by
+  cases f <;> rfl
+
+theorem val_fuel (g : Graph) (inputs : List Nat) (hwf : g.wf = true) :
+    ∀ i, i < g.insts.length → ∀ f1 f2 p, i < f1 → i < f2 →
+      val g inputs f1 (.out i p) = val g inputs f2 (.out i p) := by
+  intro i
+  induction i using Nat.strongRecOn with
+  | _ i ih =>
+    intro hi f1 f2 p h1 h2
+    obtain ⟨a, rfl⟩ : ∃ a, f1 = a + 1 := ⟨f1 - 1, by omega⟩
+    obtain ⟨b, rfl⟩ : ∃ b, f2 = b + 1 := ⟨f2 - 1, by omega⟩
+    simp only [val]
+    congr 2
+    apply List.map_congr_left
+    intro j hj
+    obtain ⟨_, s, hs, hok⟩ := (wf_inst g hwf i hi).2 j (List.mem_range.mp hj)
+    simp only [hs]
+    cases s with
+    | ext k => rw [val_ext, val_ext]
+    | out i' p' =>
+      simp only [Graph.srcOk, Bool.and_eq_true, decide_eq_true_eq] at hok
+      exact ih i' hok.1 (by omega) a b p' (by omega) (by omega)
+
+theorem eval_solution (g : Graph) (inputs : List Nat) (hwf : g.wf = true) :
+    IsSolution g inputs (evalPort g inputs) := by
+  intro i hi p _
+  unfold evalPort
+  obtain ⟨a, ha⟩ : ∃ a, g.insts.length = a + 1 := ⟨g.insts.length - 1, by omega⟩
+  rw [ha]
+  simp only [val]
+  congr 2
+  apply List.map_congr_left
+  intro j hj
+  obtain ⟨_, s, hs, hok⟩ := (wf_inst g hwf i hi).2 j (List.mem_range.mp hj)
+  simp only [inValV, hs]
+  cases s with
+  | ext k => rw [val_ext]; rfl
+  | out i' p' =>
+    simp only [Graph.srcOk, Bool.and_eq_true, decide_eq_true_eq] at hok
+    simp only [srcValV]
+    exact val_fuel g inputs hwf i' (by omega) a (a + 1) p' (by omega) (by omega)
+
+theorem solution_unique (g : Graph) (inputs : List Nat) (hwf : g.wf = true)
+    (V V' : Nat → Nat → Nat) (hV : IsSolution g inputs V) (hV' : IsSolution g inputs V') :
+    ∀ i, i < g.insts.length → ∀ p, p < g.nOut i → V i p = V' i p := by
+  intro i
+  induction i using Nat.strongRecOn with
+  | _ i ih =>
+    intro hi p hp
+    rw [hV i hi p hp, hV' i hi p hp]
+    congr 2
+    apply List.map_congr_left
+    intro j hj
+    obtain ⟨_, s, hs, hok⟩ := (wf_inst g hwf i hi).2 j (List.mem_range.mp hj)
+    simp only [inValV, hs]
+    cases s with
+    | ext k => rfl
+    | out i' p' =>
+      simp only [Graph.srcOk, Bool.and_eq_true, decide_eq_true_eq] at hok
+      exact ih i' hok.1 (by omega) p' hok.2
+
+/-! ## partitions -/
+
+theorem cpOf_some (pt : Part) (i c : Nat) (h : cpOf pt i = some c) :
+    c < pt.length ∧ i ∈ listOf pt c := by
+  unfold cpOf at h
+  obtain ⟨hc, hp, _⟩ := List.findIdx?_eq_some_iff_getElem.mp h
+  refine ⟨hc, ?_⟩
+  unfold listOf
+  rw [List.getElem?_eq_getElem hc]
+  simpa using hp
+
+theorem nodup_flatMap_unique (pt : Part) :
+    (pt.flatMap (·.list)).Nodup → ∀ c c' i, i ∈ listOf pt c → i ∈ listOf pt c' → c = c' := by
+  induction pt with
+  | nil => intro _ c c' i h; simp [listOf] at h
+  | cons x xs ih =>
+    intro hnd c c' i h h'
+    simp only [List.flatMap_cons] at hnd
+    obtain ⟨h1, h2, h3⟩ := List.nodup_append.mp hnd
+    have hmem : ∀ c, i ∈ listOf xs c → i ∈ xs.flatMap (·.list) := by
+      intro c hc
+      unfold listOf at hc
+      cases hx : xs[c]? with
+      | none => simp [hx] at hc
+      | some y =>
+        simp only [hx, Option.map_some, Option.getD_some] at hc
+        exact List.mem_flatMap.mpr ⟨y, List.mem_of_getElem? hx, hc⟩
+    cases c with
+    | zero =>
+      cases c' with
+      | zero => rfl
+      | succ c' =>
+        have hx : i ∈ x.list := by simpa [listOf] using h
+        have hy : i ∈ listOf xs c' := by simpa [listOf] using h'
+        exact absurd rfl (h3 i hx i (hmem c' hy))
+    | succ c =>
+      cases c' with
+      | zero =>
+        have hx : i ∈ x.list := by simpa [listOf] using h'
+        have hy : i ∈ listOf xs c := by simpa [listOf] using h
+        exact absurd rfl (h3 i hx i (hmem c hy))
+      | succ c' =>
+        have hy : i ∈ listOf xs c := by simpa [listOf] using h
+        have hy' : i ∈ listOf xs c' := by simpa [listOf] using h'
+        rw [ih h2 c c' i hy hy']
+
+theorem cpOf_of_mem (pt : Part) (hnd : (pt.flatMap (·.list)).Nodup) (i c : Nat)
+    (h : i ∈ listOf pt c) : cpOf pt i = some c := by
+  have hc : c < pt.length := by
+    unfold listOf at h
+    cases hx : pt[c]? with
+    | none => simp [hx] at h
+    | some y => exact (List.getElem?_eq_some_iff.mp hx).1
+  cases hf : cpOf pt i with
+  | none =>
+    unfold cpOf at hf
+    have := List.findIdx?_eq_none_iff.mp hf pt[c] (List.getElem_mem hc)
+    unfold listOf at h
+    rw [List.getElem?_eq_getElem hc] at h
+    simp at h this
+    exact absurd h this
+  | some c' =>
+    obtain ⟨_, hm⟩ := cpOf_some pt i c' hf
+    rw [nodup_flatMap_unique pt hnd c' c i hm h]
+
+structure PartOk (g : Graph) (pt : Part) : Prop where
+  nodup : (pt.flatMap (·.list)).Nodup
+  cover : ∀ i, i < g.insts.length → ∃ c, cpOf pt i = some c
+  bound : ∀ c i, i ∈ listOf pt c → i < g.insts.length
+  topo : ∀ c, c < pt.length → listTopo g (listOf pt c) = true
+
+theorem partOk_of (g : Graph) (pt : Part) (h : Part.ok g pt = true) : PartOk g pt := by
+  unfold Part.ok at h
+  simp only [Bool.and_eq_true, decide_eq_true_eq, List.all_eq_true, List.mem_range] at h
+  obtain ⟨⟨⟨hnd, hcov⟩, hb⟩, ht⟩ := h
+  have hmemAll : ∀ c i, i ∈ listOf pt c → i ∈ pt.flatMap (·.list) := by
+    intro c i hc
+    unfold listOf at hc
+    cases hx : pt[c]? with
+    | none => simp [hx] at hc
+    | some y =>
+      simp only [hx, Option.map_some, Option.getD_some] at hc
+      exact List.mem_flatMap.mpr ⟨y, List.mem_of_getElem? hx, hc⟩
+  refine ⟨hnd, ?_, ?_, ?_⟩
+  · intro i hi
+    have := hcov i hi
+    have hm : i ∈ pt.flatMap (·.list) := by simpa using this
+    obtain ⟨y, hy, hiy⟩ := List.mem_flatMap.mp hm
+    obtain ⟨c, hc, hcy⟩ := List.getElem_of_mem hy
+    refine ⟨c, cpOf_of_mem pt hnd i c ?_⟩
+    unfold listOf
+    rw [List.getElem?_eq_getElem hc, hcy]
+    simpa using hiy
+  · intro c i hc
+    have := hb i (hmemAll c i hc)
+    simpa using this
+  · intro c hc
+    have := ht pt[c] (List.getElem_mem hc)
+    unfold listOf
+    rw [List.getElem?_eq_getElem hc]
+    simpa using this
+
+theorem listOf_nodup (pt : Part) (hnd : (pt.flatMap (·.list)).Nodup) (c : Nat) :
+    (listOf pt c).Nodup := by
+  unfold listOf
+  cases hx : pt[c]? with
+  | none => simp
+  | some y =>
+    simp only [Option.map_some, Option.getD_some]
+    induction pt generalizing c with
+    | nil => simp at hx
+    | cons x xs ih =>
+      simp only [List.flatMap_cons] at hnd
+      obtain ⟨h1, h2, _⟩ := List.nodup_append.mp hnd
+      cases c with
+      | zero => simp at hx; subst hx; exact h1
+      | succ c => exact ih h2 c (by simpa using hx)
+
+
+/-- **collapse_seq** on the section as the composer leaves it (temporaries replaced) -/
+theorem collapse_seq_res (g : Graph) (l : List Nat) (inp : Nat → Nat) (hwf : g.wf = true)
+    (hnd : l.Nodup) (hlt : ∀ i ∈ l, i < g.insts.length) (htopo : listTopo g l = true)
+    (ρ : RegFile) :
+    ∃ F, LocalSol g l inp F ∧
+      (runSec g.w inp (secRes g l) ⟨ρ, []⟩).outs = expectedOuts g l F := by
+  rw [secRes_outs]
+  exact collapse_seq_sym g l inp hwf hnd hlt htopo _
+
+theorem mem_expectedOuts (g : Graph) (l : List Nat) (F : Nat → Nat → Nat) (i p k : Nat)
+    (hi : i ∈ l) (hp : p < g.nOut i) (hk : outPort g l i p = some k) :
+    (k, F i p) ∈ expectedOuts g l F := by
+  unfold expectedOuts
+  apply List.mem_flatMap.mpr
+  refine ⟨i, hi, ?_⟩
+  apply List.mem_filterMap.mpr
+  have hp' : p < (g.frag i).resout.length := hp
+  refine ⟨(p, (g.frag i).resout[p]), (mem_enum _ _ _).mpr (List.getElem?_eq_getElem hp'), ?_⟩
+  simp [hk]
+
+theorem mem_bonds (g : Graph) (pt : Part) (L : Link) (a b : End) (hL : L ∈ g.links)
+    (hint : L.internal pt = false) (ha : srcEnd g pt L.src = some a) (hb : dstEnd g pt L.dst = some b) :
+    (a, b) ∈ bonds g pt := by
+  unfold bonds
+  apply List.mem_filterMap.mpr
+  refine ⟨L, hL, ?_⟩
+  simp [hint, ha, hb]
+
+theorem hasExtCons_of_link_ext (g : Graph) (l : List Nat) (L : Link) (i p k : Nat)
+    (hL : L ∈ g.links) (hs : L.src = .out i p) (hd : L.dst = .ext k) : hasExtCons g l (i, p) = true := by
+  unfold hasExtCons
+  apply List.any_eq_true.mpr
+  exact ⟨L, hL, by simp [hs, hd]⟩
+
+/-- the per-CP dataflow solutions glue to a solution of the whole graph, and every CP output port
+    carries the value of the instance output it was allocated for -/
+theorem glue (g : Graph) (pt : Part) (inputs : List Nat) (σ : End → Nat)
+    (hwf : g.wf = true) (hok : PartOk g pt) (hc : Consistent g pt inputs σ) :
+    ∃ V, IsSolution g inputs V ∧
+      ∀ i p c k, cpOf pt i = some c → i < g.insts.length → p < g.nOut i →
+        outPort g (listOf pt c) i p = some k → σ (.cpOut c k) = V i p := by
+  -- one local solution per CP (collapse_seq), chosen for the all-zero register file
+  have hex : ∀ c, ∃ F : Nat → Nat → Nat, c < pt.length →
+      LocalSol g (listOf pt c) (fun k => σ (.cpIn c k)) F ∧
+      (runSec g.w (fun k => σ (.cpIn c k)) (secRes g (listOf pt c)) ⟨fun _ => 0, []⟩).outs =
+        expectedOuts g (listOf pt c) F := by
+    intro c
+    by_cases hcl : c < pt.length
+    · obtain ⟨F, h1, h2⟩ := collapse_seq_res g (listOf pt c) (fun k => σ (.cpIn c k)) hwf
+        (listOf_nodup pt hok.nodup c) (fun i hi => hok.bound c i hi) (hok.topo c hcl) (fun _ => 0)
+      exact ⟨F, fun _ => ⟨h1, h2⟩⟩
+    · exact ⟨fun _ _ => 0, fun h => absurd h hcl⟩
+  let Fc : Nat → Nat → Nat → Nat := fun c => Classical.choose (hex c)
+  have hFc : ∀ c, c < pt.length →
+      LocalSol g (listOf pt c) (fun k => σ (.cpIn c k)) (Fc c) ∧
+      (runSec g.w (fun k => σ (.cpIn c k)) (secRes g (listOf pt c)) ⟨fun _ => 0, []⟩).outs =
+        expectedOuts g (listOf pt c) (Fc c) := fun c => Classical.choose_spec (hex c)
+  let V : Nat → Nat → Nat := fun i p => match cpOf pt i with
+    | some c => Fc c i p
+    | none => 0
+  have hV : ∀ i c p, cpOf pt i = some c → V i p = Fc c i p := by
+    intro i c p h; simp [V, h]
+  -- every allocated output port carries the instance's value
+  have hport : ∀ i p c k, cpOf pt i = some c → i < g.insts.length → p < g.nOut i →
+      outPort g (listOf pt c) i p = some k → σ (.cpOut c k) = V i p := by
+    intro i p c k hcp _ hp hk
+    obtain ⟨hcl, him⟩ := cpOf_some pt i c hcp
+    have hm := mem_expectedOuts g (listOf pt c) (Fc c) i p k him hp hk
+    rw [← (hFc c hcl).2] at hm
+    have := hc.sec c hcl (fun _ => 0) _ hm
+    rw [hV i c p hcp]
+    exact this
+  refine ⟨V, ?_, hport⟩
+  intro i hi p hp
+  obtain ⟨c, hcp⟩ := hok.cover i hi
+  obtain ⟨hcl, him⟩ := cpOf_some pt i c hcp
+  rw [hV i c p hcp, (hFc c hcl).1 i him p hp]
+  congr 2
+  apply List.map_congr_left
+  intro j hj
+  obtain ⟨_, s, hs, hsok⟩ := (wf_inst g hwf i hi).2 j (List.mem_range.mp hj)
+  obtain ⟨L, hL, hd, hsrc⟩ := inSrc_mem g i j s hs
+  have hdst : ∀ (hport : inKind g (listOf pt c) i j = .port),
+      dstEnd g pt L.dst = some (.cpIn c (inIdx g (listOf pt c) i j)) := by
+    intro hk
+    simp [hd, dstEnd, hcp, inPort, isPortIn, hk]
+  unfold localIn inValV
+  rw [hs]
+  cases s with
+  | ext k0 =>
+    have hk : inKind g (listOf pt c) i j = .port := by simp [inKind, hs]
+    rw [hk]
+    dsimp only
+    have hb := mem_bonds g pt L (.bmIn k0) _ hL (by simp [Link.internal, hsrc])
+      (by simp [hsrc, srcEnd]) (hdst hk)
+    have := hc.bond _ hb
+    simp only at this
+    rw [this, hc.inp k0]
+    rfl
+  | out i' p' =>
+    simp only [Graph.srcOk, Bool.and_eq_true, decide_eq_true_eq] at hsok
+    have hi' : i' < g.insts.length := by omega
+    obtain ⟨c', hcp'⟩ := hok.cover i' hi'
+    obtain ⟨hcl', him'⟩ := cpOf_some pt i' c' hcp'
+    by_cases hin : i' ∈ listOf pt c
+    · have hk : inKind g (listOf pt c) i j = .temp i' p' := by simp [inKind, hs, hin]
+      rw [hk]
+      dsimp only
+      have : cpOf pt i' = some c := cpOf_of_mem pt hok.nodup i' c hin
+      simp only [srcValV]
+      rw [hV i' c p' this]
+    · have hk : inKind g (listOf pt c) i j = .port := by simp [inKind, hs, hin]
+      rw [hk]
+      dsimp only
+      have hne : c' ≠ c := fun e => hin (e ▸ him')
+      have hinot : i ∉ listOf pt c' := by
+        intro h
+        exact hne (nodup_flatMap_unique pt hok.nodup c' c i h him)
+      have hext := hasExtCons_of_inSrc g (listOf pt c') i j i' p' hs hinot
+      have hop : outPort g (listOf pt c') i' p' = some (outIdx g (listOf pt c') i' p') := by
+        simp [outPort, hext]
+      have hb := mem_bonds g pt L (.cpOut c' (outIdx g (listOf pt c') i' p')) _ hL
+        (by simp [Link.internal, hsrc, hd, hcp, hcp', hne])
+        (by simp [hsrc, srcEnd, hcp', hop]) (hdst hk)
+      have := hc.bond _ hb
+      simp only at this
+      rw [this, hport i' p' c' _ hcp' hi' hsok.2 hop]
+      rfl
+
+/-- **compose_correct**: every consistent behaviour of the composed network shows, on every BM
+    output, the dataflow evaluation of the graph -/
+theorem compose_correct_thm (g : Graph) (pt : Part) (inputs : List Nat) (σ : End → Nat)
+    (hwf : g.wf = true) (hok : Part.ok g pt = true) (hc : Consistent g pt inputs σ) :
+    ∀ k s, outSrc g k = some s → σ (.bmOut k) = evalSrc g inputs s := by
+  intro k s hs
+  have hpo := partOk_of g pt hok
+  obtain ⟨V, hsol, hport⟩ := glue g pt inputs σ hwf hpo hc
+  unfold outSrc at hs
+  cases hf : g.links.find? (fun L => L.dst == Dst.ext k) with
+  | none => rw [hf] at hs; cases hs
+  | some L =>
+    rw [hf] at hs
+    simp only [Option.map_some, Option.some.injEq] at hs
+    have hL : L ∈ g.links := List.mem_of_find?_eq_some hf
+    have hd : L.dst = .ext k := by
+      have := List.find?_some hf
+      simpa using this
+    cases s with
+    | ext k0 =>
+      have hb := mem_bonds g pt L (.bmIn k0) (.bmOut k) hL (by simp [Link.internal, hs])
+        (by simp [hs, srcEnd]) (by simp [hd, dstEnd])
+      have := hc.bond _ hb
+      simp only at this
+      rw [this, hc.inp k0]
+      rfl
+    | out i p =>
+      obtain ⟨hi, hp⟩ := (wf_link g hwf L hL).2 i p hs
+      obtain ⟨c, hcp⟩ := hpo.cover i hi
+      have hext := hasExtCons_of_link_ext g (listOf pt c) L i p k hL hs hd
+      have hop : outPort g (listOf pt c) i p = some (outIdx g (listOf pt c) i p) := by
+        simp [outPort, hext]
+      have hb := mem_bonds g pt L (.cpOut c (outIdx g (listOf pt c) i p)) (.bmOut k) hL
+        (by simp [Link.internal, hs, hd]) (by simp [hs, srcEnd, hcp, hop]) (by simp [hd, dstEnd])
+      have := hc.bond _ hb
+      simp only at this
+      rw [this, hport i p c _ hcp hi hp hop]
+      simp only [evalSrc]
+      exact solution_unique g inputs hwf V _ hsol (eval_solution g inputs hwf) i hi p hp
+
 end BMV.Frag
